@@ -431,6 +431,10 @@ def run_config(code, n, variant, mask, evaluated, ctx):
                 ctx.fail('%s/%s/re-extracted' % (key0, label),
                          tags + ['oracle:extract'], inputs, 'extracted',
                          'timeout', nontriv)
+            except Exception as exc:  # noqa: BLE001
+                ctx.fail('%s/%s/re-extracted' % (key0, label),
+                         tags + ['oracle:extract'], inputs, 'extracted',
+                         lib.exc_obs(exc), nontriv)
             ctx.count('transitions')
             second_generation(ext, eve, history, items)
             if len(items) > 1:
